@@ -133,6 +133,7 @@ package play
 //@   ensures err == nil ==> forall(i, 0, len(instances), noteOK(i))
 //@   ensures err == nil ==> forall(i, 0, len(instances), velOK(i))
 //@   ensures err == nil ==> forall(i, 0, len(instances), bassOK(i))
+//@   ensures err == nil ==> forall(i, 0, len(instances), tonesOK(i))
 //@   ensures err == nil ==> forall(i, 0, len(instances), tempoOK(i))
 //@   ensures err == nil ==> forall(i, 0, len(instances), meterOK(i))
 //@   ensures err == nil ==> forall(i, 0, len(instances), keyOK(i))
@@ -147,6 +148,7 @@ package play
 //@   loop 0 invariant forall(i, 0, rangeindex + 1, noteOK(i))
 //@   loop 0 invariant forall(i, 0, rangeindex + 1, velOK(i))
 //@   loop 0 invariant forall(i, 0, rangeindex + 1, bassOK(i))
+//@   loop 0 invariant forall(i, 0, rangeindex + 1, tonesOK(i))
 //@   loop 0 invariant forall(i, 0, rangeindex + 1, tempoOK(i))
 //@   loop 0 invariant forall(i, 0, rangeindex + 1, meterOK(i))
 //@   loop 0 invariant forall(i, 0, rangeindex + 1, keyOK(i))
